@@ -325,6 +325,32 @@ def check_real_class(name, mk):
         if batches[0].std() > 0 and not all(np.array_equal(x, y) for x, y in zip(batches, late)):
             k = next(i for i, (x, y) in enumerate(zip(batches, late)) if not np.array_equal(x, y))
             bad.append((f'late-seed-differs:{name}', f'{name}: set_random_state(11) after construction gives another stream than random_state=11 at construction (call {k + 1})'))
+        # size extreme: two successive LONG seeded calls (60 001 rows) still advance the stream, and a twin replays them call by call
+        if name in ('GaussianMultivariate', 'GaussianUnivariate', 'UniformUnivariate'):
+            l1m, l2m = mk(21), mk(21)
+            big1, big2 = np.asarray(l1m.sample(60001)), np.asarray(l1m.sample(60001))
+            tw1 = np.asarray(l2m.sample(60001))
+            after = np.asarray(l1m.sample(5))
+            fresh_first = np.asarray(mk(21).sample(5))
+            if big1.shape[0] != 60001:
+                bad.append((f'long-sample-rows:{name}', f'{name}.sample(60001) returned {big1.shape[0]} rows'))
+            if np.array_equal(big1, big2) or np.array_equal(after, fresh_first):
+                bad.append((f'stream-stuck:{name}', f'seeded {name}: after sample(60001) the stream is where it was (the next call replays earlier values)'))
+            if not np.array_equal(big1, tw1):
+                bad.append((f'not-reproducible:{name}', f'two {name} models with seed 21 differ on sample(60001)'))
+        # ONE RandomState object given to two models: each model owns a stream that starts at the object's state; the caller's object is
+        # not consumed, and the two streams are identical whatever the interleaving (round 5: in-place advance of a shared generator)
+        shared = np.random.RandomState(7)
+        s0 = shared.get_state()
+        p1, p2 = mk(shared), mk(shared)
+        x1 = np.asarray(p1.sample(5)); y1 = np.asarray(p2.sample(5)); x2 = np.asarray(p1.sample(5)); y2 = np.asarray(p2.sample(5))
+        s1 = shared.get_state()
+        if not (s0[0] == s1[0] and np.array_equal(s0[1], s1[1]) and s0[2:] == s1[2:]):
+            bad.append((f'shared-randomstate-consumed:{name}', f'{name}: sampling from models built with a caller-owned RandomState object advanced that object'))
+        if x1.std() > 0 and not (np.array_equal(x1, y1) and np.array_equal(x2, y2)):
+            bad.append((f'shared-randomstate-streams-differ:{name}', f'two {name} models built from ONE RandomState(7) object produce different streams when their calls are interleaved'))
+        if x1.std() > 0 and not np.array_equal(x1, a1):
+            bad.append((f'shared-randomstate-streams-differ:{name}', f'{name}(random_state=RandomState(7)) does not reproduce {name}(random_state=7)'))
         # history: re-seeding restarts the stream; dropping the seed hands control to the global generator
         m1.set_random_state(7)
         a3 = np.asarray(m1.sample(5))
